@@ -7,6 +7,7 @@ import (
 	"go/token"
 	"go/types"
 	"os"
+	"path/filepath"
 	"sort"
 	"strings"
 	"time"
@@ -36,8 +37,8 @@ func main() {
 	replayDir := flag.String("replays", "/verif/replays", "where replay files go")
 	harnessDir := flag.String("harness", "/verif/harness", "run-time contract harnesses (bounded search for failing inputs)")
 	knownPath := flag.String("known", "/verif/known_findings.txt", "known findings file")
-	basePath := flag.String("baseline", "/verif/baseline/obligations.json", "accepted baseline of proved obligations")
-	writeBase := flag.String("write-baseline", "", "write the names of proved obligations to this file (merging)")
+	baseDir := flag.String("baseline", "/verif/baseline", "directory with the accepted baseline (<prop>.json: obligations proved on the accepted tree)")
+	writeBaseFlag := flag.Bool("write-baseline", false, "rewrite the baseline of this property from this run")
 	seed := flag.Int("seed", 0, "seed")
 	flag.Parse()
 	t0 := time.Now()
@@ -142,10 +143,15 @@ func main() {
 
 	rep := &Report{Prop: *prop, Tier: *tier, Seed: *seed, Results: results, Obls: all, LoadS: loadS, GenS: genS, SolveS: solveS, Wall: time.Since(t0).Seconds(), V: v, ReplayDir: *replayDir, HarnessDir: *harnessDir, Repo: *repo}
 	rep.Known = loadKnown(*knownPath)
-	rep.Baseline = loadBaseline(*basePath)
+	basePath := filepath.Join(*baseDir, *prop+".json")
+	writeBase := new(string)
+	if *writeBaseFlag {
+		*writeBase = basePath
+	}
+	rep.Baseline = loadBaseline(basePath)
 	code := rep.finish(*evid, *verbose)
 	if *writeBase != "" {
-		m := loadBaseline(*writeBase)
+		m := map[string]string{}
 		for _, o := range all {
 			if o.Status == "proved" {
 				m[o.Name] = "proved"
